@@ -209,6 +209,34 @@ def h_isa_delims(a: int, b: int, c: int, d: int, v5010: bool, ctl: str) -> bool:
             txt[90:99] == ctl and w.loops == [('ISA', ctl)])
 
 
+def h_isa_sequence(v1: bool, v2: bool, d: int, u1: bool, u2: bool) -> bool:
+    '''
+    pre: 0 <= d < 4
+    post: _
+    '''
+    # one writer, two interchanges whose versions (00401 / 00501) and incoming ISA11 ('U' or a foreign '!') are symbolic:
+    # EVERY ISA written carries the writer's own delimiters (no writer state may leak from the first interchange into the second)
+    st, et, ct, rt = '~', '*', SUB_T[d], REP_T[d]
+    out = Sink()
+    w = X12Writer(out, st, et, ct, '', rt)
+    texts = []
+    for (v5010, keep_u, ctl) in ((v1, u1, '000000001'), (v2, u2, '000000002')):
+        seg = Segment('ISA', '~', '*', ':')
+        for f in ISA_FIELDS:
+            seg.append(ctl if f is None else f)
+        seg.set('ISA11', 'U' if keep_u else '!')
+        if v5010:
+            seg.set('ISA12', '00501')
+        mark = len(out.getvalue())
+        w.Write(seg)
+        texts.append((out.getvalue()[mark:], v5010, 'U' if keep_u else '!'))
+        w.Write(seg_of('IEA', '0', ctl))
+    ok = True
+    for (txt, v5010, src11) in texts:
+        ok = ok and len(txt) == 106 and txt[3] == et and txt[104] == ct and txt[105] == st and txt[82] == (rt if v5010 else src11)
+    return ok
+
+
 # ------------------------------------------------------------------ composition with the real reader
 STEPS = ('REF', 'SE_bad', 'GE_bad', 'IEA_bad', 'ST', 'GS', 'none')
 
@@ -217,9 +245,14 @@ def _isa_text_seg(ctl):
     return isa_seg(ctl)
 
 
-def h_compose(depth: int, k1: int, k2: int, ci: int) -> bool:
+NSTEPS = P('nsteps', 2)
+
+
+def h_compose(depth: int, k1: int, k2: int, k3: int, ci: int) -> bool:
     '''
-    pre: 1 <= depth <= 3 and 0 <= k1 < 7 and 0 <= k2 < 7 and 0 <= ci < NTOK
+    pre: 1 <= depth <= 3 and 0 <= k1 < 7 and 0 <= k2 < 7 and 0 <= k3 < 7 and 0 <= ci < NTOK
+    pre: NSTEPS >= 3 or k3 == 6
+    pre: NSTEPS < 3 or ci < 3
     post: _
     '''
     # a real writer from scratch: headers down to `depth`, two further writes chosen symbolically (trailers carry a wrong count /
@@ -233,7 +266,7 @@ def h_compose(depth: int, k1: int, k2: int, ci: int) -> bool:
         w.Write(seg_of('ST', '837', '0001'))
         w.Write(seg_of('BHT', '0019', '00'))
     nst, ngs = 1, 1
-    for k in (k1, k2):
+    for k in (k1, k2, k3):
         step = STEPS[k]
         top = w.loops[-1][0] if w.loops else None
         if step == 'REF' and top == 'ST':
@@ -278,14 +311,16 @@ OBLIGATIONS += [
     _ob('write_GS', 'h_header', 'quick', 600, depth=1),
     _ob('write_ST', 'h_header', 'quick', 600, depth=2),
     _ob('write_isa_delims', 'h_isa_delims', 'quick', 900),
+    _ob('write_isa_sequence', 'h_isa_sequence', 'quick', 900),
     _ob('compose_with_reader', 'h_compose', 'quick', 1500),
+    _ob('compose3_with_reader', 'h_compose', 'thorough', 7200, nsteps=3),
 ]
 
 LEVEL = 'model_checking'
 EXPLANATION = __doc__
 BOUNDS = ('one Write/Close from any invariant state: header ids concrete, in one obligation family chosen symbolically from a 6-element table (str.format/% in the code under test concretise symbolic strings); groups / sets already written 0..3 (empty interchange and empty group included), segments 1..3; '
           'supplied trailer id any character, supplied count any of 11 token classes or missing; body segments of 9 ids with 3 values chosen from a 5-element table; '
-          'ISA with 4x4x4x4 delimiter choices, both versions; composition: real writer, headers to depth 1..3, two symbolic further writes, Close, read back.')
+          'ISA with 4x4x4x4 delimiter choices, both versions; composition: real writer, headers to depth 1..3, two (three thorough) symbolic further writes, Close, read back.')
 OUTSIDE = ('write sequences that are not well nested (outside the property); counts above 3; values longer than one character (formatting is per value); '
            'stream failures; eol other than newline.')
 ASSUMPTIONS = [
